@@ -14,7 +14,14 @@ package main
 // in order; the destination's settings are honoured in the output (codec,
 // page version, encodings, dictionary, page index, statistics, bloom filter,
 // MaxRowsPerRowGroup); the offset index of the output points at page headers;
-// wrapper semantics are observed.  Correspondence: the path taken (hook
+// wrapper semantics are observed; chunk by chunk the bloom filter (header and
+// bits) and the geospatial statistics equal the reference's; every data page
+// of a dictionary column is PLAIN exactly when the dictionary of the pages
+// before it exceeds the destination's DictionaryMaxBytes (predicates.go);
+// rows still buffered in the writer when WriteRowGroup is called end up in row
+// groups of their own; a call that fails while the copy is staged leaves no
+// trace in the file (fault.go).  Shapes with dictionary fallbacks and
+// geospatial columns: shapes.go.  Correspondence: the path taken (hook
 // counters, output row groups) equals the plan of the Coq model
 // (CopyPath/Decision.v) for the attribute vector derived from the source's
 // metadata and the destination's options; the pages of a destination flushing
@@ -34,6 +41,7 @@ import (
 	"sort"
 	"strconv"
 	"strings"
+	"time"
 	"unsafe"
 
 	"github.com/parquet-go/parquet-go"
@@ -50,17 +58,24 @@ func main() { core.Main("C11", run, replay) }
 
 type c11Case struct {
 	Gen    gen.Case `json:"gen"`
-	Shape  string   `json:"shape"`            // "" (generated schema) | "sorted" | "repeated"
+	Shape  string   `json:"shape"`            // "" (generated schema) | "sorted" | "repeated" | "dict" | "geo"
 	Src    string   `json:"src"`              // see sources
 	Dst    string   `json:"dst"`              // see dstFor
 	Switch string   `json:"switch,omitempty"` // "" | nocopy | noreencode | none
 	Parts  int      `json:"parts,omitempty"`  // number of inputs of multi / merge sources
 	RowLen int      `json:"row_len,omitempty"` // shape repeated: typical number of values of a row
+	// Pending rows are written with WriteRows and still buffered when WriteRowGroup is called
+	// (they are the first rows the source delivers, written a second time)
+	Pending int `json:"pending,omitempty"`
+	Card    int `json:"card,omitempty"`  // shape dict: number of distinct values of each column
+	Fault   int `json:"fault,omitempty"` // fault scenario: 1 + the column whose page index cannot be read
+	FaultOI bool `json:"fault_oi,omitempty"` // the offset index (else the column index) is unreadable
+	After   string `json:"after,omitempty"` // fault scenario: what is written after the failed call: rows | rowgroup
 }
 
 var srcKinds = []string{"file", "buffer", "genericbuffer", "multi", "multi-mixed", "convert-add", "convert-first", "convert-drop", "foreign", "foreign-plain"}
 var sortedSrcKinds = []string{"file", "merge-disjoint", "merge-overlap", "merge-dedup", "dedup", "merge-nosort", "multi", "foreign"}
-var dstKinds = []string{"same", "codec", "nocodec", "version", "encoding", "colenc", "dictmax", "stats", "bloom", "bloomsize", "bloomoff", "maxrows", "sorting", "encrypt", "pagebuf", "indexlimit"}
+var dstKinds = []string{"same", "codec", "nocodec", "version", "encoding", "colenc", "dictmax", "dictmore", "dictless", "stats", "bloom", "bloomsize", "bloomoff", "maxrows", "sorting", "encrypt", "pagebuf", "indexlimit"}
 
 // dstOpts: the writer options of a destination (or source) file.
 type dstOpts struct {
@@ -184,6 +199,19 @@ func dstFor(kind string, src dstOpts, maxSrcRows int64) dstOpts {
 			d.DictMaxBytes = 0
 		} else {
 			d.DictMaxBytes = 48
+		}
+	case "dictmore":
+		// a larger limit than the source's (or a limit no dictionary of a case reaches)
+		if d.DictMaxBytes > 0 {
+			d.DictMaxBytes = d.DictMaxBytes*8 + 100
+		} else {
+			d.DictMaxBytes = 1 << 20
+		}
+	case "dictless":
+		if d.DictMaxBytes == 0 || d.DictMaxBytes > 40 {
+			d.DictMaxBytes = 20
+		} else {
+			d.DictMaxBytes = 9
 		}
 	case "stats":
 		d.PageStats = !d.PageStats
@@ -365,7 +393,7 @@ type built struct {
 
 func writeRows(root *gen.Node, o dstOpts, sortKey []string, rows []parquet.Row, history []int) ([]byte, error) {
 	var buf bytes.Buffer
-	schema := cloneRoot(root, o.ColEnc).ParquetSchema()
+	schema := schemaOf(cloneRoot(root, o.ColEnc))
 	w := parquet.NewGenericWriter[any](&buf, append([]parquet.WriterOption{schema}, o.writerOptions(root, sortKey)...)...)
 	if history == nil {
 		history = []int{len(rows)}
@@ -412,7 +440,7 @@ func (b *built) addFile(rows []parquet.Row, history []int) ([]parquet.RowGroup, 
 }
 
 func (b *built) buffer(rows []parquet.Row, generic bool) (parquet.RowGroup, error) {
-	schema := b.srcRoot.ParquetSchema()
+	schema := schemaOf(b.srcRoot)
 	cl := make([]parquet.Row, len(rows))
 	for i := range rows {
 		cl[i] = rows[i].Clone()
@@ -458,6 +486,35 @@ func build(cs c11Case) (*built, error) {
 			b.srcOpts.BloomBits = 10
 		}
 		b.srcOpts.Bloom = false
+	case "dict", "geo":
+		g := cs.Gen.Build() // only the options and the history are used
+		history = g.History
+		b.srcOpts = dstOpts{Options: g.Opts}
+		if g.Opts.Bloom {
+			b.srcOpts.BloomBits = 10
+		}
+		b.srcOpts.Bloom = false
+		b.srcOpts.DefaultEnc = ""
+		if cs.Shape == "dict" {
+			b.srcRoot = dictRoot()
+			b.rows = dictRows(cs)
+			b.srcOpts.MaxRows = 0
+			// from the seed: the dictionary limit, bloom filters, and whether a chunk has several pages
+			// (a fallback in the middle) or one (a limit exceeded when the last page is flushed)
+			b.srcOpts.DictMaxBytes = dictLimits[posMod(cs.Gen.Seed/3, len(dictLimits))]
+			b.srcOpts.BloomBits = 0
+			if posMod(cs.Gen.Seed/15, 2) == 0 {
+				b.srcOpts.BloomBits = 10
+			}
+			if posMod(cs.Gen.Seed/30, 3) == 0 {
+				b.srcOpts.PageBuffer = 1 << 18
+			} else if b.srcOpts.PageBuffer > 1024 {
+				b.srcOpts.PageBuffer = 256
+			}
+		} else {
+			b.srcRoot = geoRoot()
+			b.rows = geoRows(cs)
+		}
 	case "sorted", "repeated":
 		g := cs.Gen.Build() // only the options are used
 		b.srcOpts = dstOpts{Options: g.Opts}
@@ -719,7 +776,7 @@ func build(cs c11Case) (*built, error) {
 			if err != nil {
 				return nil, err
 			}
-			conv, cerr := parquet.Convert(target.ParquetSchema(), b.srcRoot.ParquetSchema())
+			conv, cerr := parquet.Convert(schemaOf(target), schemaOf(b.srcRoot))
 			if cerr != nil {
 				return nil, fmt.Errorf("skip: Convert: %w", cerr)
 			}
@@ -872,7 +929,7 @@ func colToken(b *built, rg parquet.RowGroup, i int, chunk parquet.ColumnChunk, d
 	if i < len(dcols) {
 		d = dcols[i]
 	}
-	flags := make([]byte, 14)
+	flags := make([]byte, 16)
 	for j := range flags {
 		flags[j] = '0'
 	}
@@ -881,7 +938,7 @@ func colToken(b *built, rg parquet.RowGroup, i int, chunk parquet.ColumnChunk, d
 			flags[j] = '1'
 		}
 	}
-	styp, scodec, numBytes, filterSize := 0, 0, 0, 0
+	styp, scodec, numBytes, filterSize, dictSize, dictFilterSize := 0, 0, 0, 0, 0, 0
 	stats := "_"
 	set(1, dst.Encrypt)
 	set(2, dst.BloomBits > 0)
@@ -924,10 +981,21 @@ func colToken(b *built, rg parquet.RowGroup, i int, chunk parquet.ColumnChunk, d
 			stats = strings.Join(ss, "/")
 		}
 		set(12, fr.sf.opts.PageStats)
+		// the dictionary page of the source: present, header decodes, declared uncompressed size
+		if m.DictionaryPageOffset != 0 && m.DataPageOffset-m.DictionaryPageOffset > 0 {
+			set(14, true)
+			if h, _, err := pageHeaderAt(fr.sf.data, m.DictionaryPageOffset); err == nil && h.Type == format.DictionaryPage && h.DictionaryPageHeader.Valid && !fr.sf.opts.Encrypt {
+				set(15, true)
+				dictSize = int(h.UncompressedPageSize)
+				if dst.BloomBits > 0 && i < len(paths) {
+					dictFilterSize = parquet.SplitBlockFilter(uint(dst.BloomBits), paths[i]...).Size(int64(h.DictionaryPageHeader.V.NumValues))
+				}
+			}
+		}
 	} else {
 		styp, scodec = d.typ, 0
 	}
-	return fmt.Sprintf("%s:%s:%x:%x:%x:%x:N:%x:%x:%s:%d:%x", class, flags, styp, d.typ, scodec, d.codec, numBytes, filterSize, stats, d.pageType, d.encoding)
+	return fmt.Sprintf("%s:%s:%x:%x:%x:%x:N:%x:%x:%s:%d:%x:%x:%x:%x", class, flags, styp, d.typ, scodec, d.codec, numBytes, filterSize, stats, d.pageType, d.encoding, dst.DictMaxBytes, dictSize, dictFilterSize)
 }
 
 // treeToken renders rg and its segments in preorder; returns the nesting depth.
@@ -1047,12 +1115,14 @@ func coqCol(tok string) string {
 	}
 	return fmt.Sprintf("{| c_class := %s; c_src_encrypted := %s; c_dst_enc_key := %s; c_src_type := %s; c_dst_type := %s; c_src_codec := %s; c_dst_codec := %s; "+
 		"c_dst_filter := %s; c_src_bloom_offset := %s; c_src_bloom_length := %s; c_dst_bloom_codec := %s; c_src_bloom_header_ok := %s; c_src_bloom_split_block := %s; "+
-		"c_src_bloom_xxhash := %s; c_src_bloom_uncompressed := %s; c_src_bloom_num_bytes := %s; c_dst_filter_size := %s; c_src_column_index := %s; c_src_offset_index := %s; "+
-		"c_src_encoding_stats := [%s]; c_dst_page_type := %s; c_dst_encoding := %s; c_dst_dict := %s; c_src_page_header_stats := %s; c_dst_page_header_stats := %s |}",
+		"c_src_bloom_xxhash := %s; c_src_bloom_uncompressed := %s; c_src_bloom_num_bytes := %s; c_dst_filter_size := %s; c_dst_filter_size_dict := %s; c_src_column_index := %s; c_src_offset_index := %s; "+
+		"c_src_encoding_stats := [%s]; c_dst_page_type := %s; c_dst_encoding := %s; c_dst_dict := %s; "+
+		"c_dst_dict_max := %s; c_src_dict_page := %s; c_src_dict_header_ok := %s; c_src_dict_uncompressed := %s; c_src_page_header_stats := %s; c_dst_page_header_stats := %s |}",
 		coqClass(f[0]), coqBoolCh(fl[0]), coqBoolCh(fl[1]), coqHexN(f[2]), coqHexN(f[3]), coqHexN(f[4]), coqHexN(f[5]),
 		coqBoolCh(fl[2]), coqBoolCh(fl[3]), coqBoolCh(fl[4]), bc, coqBoolCh(fl[5]), coqBoolCh(fl[6]),
-		coqBoolCh(fl[7]), coqBoolCh(fl[8]), coqHexN(f[7]), coqHexN(f[8]), coqBoolCh(fl[9]), coqBoolCh(fl[10]),
-		strings.Join(stats, "; "), coqPageType[f[10]], coqHexN(f[11]), coqBoolCh(fl[11]), coqBoolCh(fl[12]), coqBoolCh(fl[13]))
+		coqBoolCh(fl[7]), coqBoolCh(fl[8]), coqHexN(f[7]), coqHexN(f[8]), coqHexN(f[14]), coqBoolCh(fl[9]), coqBoolCh(fl[10]),
+		strings.Join(stats, "; "), coqPageType[f[10]], coqHexN(f[11]), coqBoolCh(fl[11]),
+		coqHexN(f[12]), coqBoolCh(fl[14]), coqBoolCh(fl[15]), coqHexN(f[13]), coqBoolCh(fl[12]), coqBoolCh(fl[13]))
 }
 
 var coqKind = map[string]string{"F": "KFile", "B": "KBuffer", "R": "KRange", "M": "KMulti", "G": "KMerged", "S0": "(KSortedSegments false)", "S1": "(KSortedSegments true)",
@@ -1220,13 +1290,41 @@ func check(c *core.Ctx, cs c11Case) (bucket string, nontrivial bool) {
 		sortKey = paths[0]
 	}
 	mkWriter := func(buf *bytes.Buffer) *parquet.GenericWriter[any] {
-		return parquet.NewGenericWriter[any](buf, append([]parquet.WriterOption{dstRoot.ParquetSchema()}, dst.writerOptions(b.root, sortKey)...)...)
+		return parquet.NewGenericWriter[any](buf, append([]parquet.WriterOption{schemaOf(dstRoot)}, dst.writerOptions(b.root, sortKey)...)...)
+	}
+
+	// rows written with WriteRows before the calls of WriteRowGroup, still buffered then:
+	// "Buffered rows will be flushed prior to writing rows from the group"
+	npend := cs.Pending
+	if npend > len(want) {
+		npend = len(want)
+	}
+	if npend > 0 {
+		var pend []parquet.Row
+		for _, r := range want[:npend] {
+			pend = append(pend, r.Clone())
+		}
+		want = append(pend, want...)
+		bucket = fmt.Sprintf("%s+pending", bucket)
 	}
 
 	// reference: the same rows one by one
 	var refBuf bytes.Buffer
 	rw := mkWriter(&refBuf)
-	for _, r := range want {
+	// the reference ends a row group where WriteRowGroup necessarily does: after the buffered rows
+	// and after the rows of each call, so that the chunks can be compared one to one
+	cuts := map[int]bool{npend: npend > 0}
+	acc := npend
+	for _, rows := range perSrc {
+		acc += len(rows)
+		cuts[acc] = true
+	}
+	for i, r := range want {
+		if cuts[i] {
+			if err := rw.Flush(); err != nil {
+				return "rejected:ref flush " + core.Trunc(err.Error(), 40), false
+			}
+		}
 		if _, err := rw.WriteRows([]parquet.Row{r.Clone()}); err != nil {
 			return "rejected:ref " + core.Trunc(err.Error(), 40), false
 		}
@@ -1284,6 +1382,12 @@ func check(c *core.Ctx, cs c11Case) (bucket string, nontrivial bool) {
 	// the implementation
 	var outBuf bytes.Buffer
 	w := mkWriter(&outBuf)
+	for _, r := range want[:npend] {
+		if _, err := w.WriteRows([]parquet.Row{r.Clone()}); err != nil {
+			violation(c, "write-error", fmt.Sprintf("%s: WriteRows before WriteRowGroup failed: %v", bucket, err), cs)
+			return bucket, false
+		}
+	}
 	setSwitches(cs.Switch)
 	var implPaths []string
 	var rowsPerCall []int64
@@ -1366,6 +1470,20 @@ func check(c *core.Ctx, cs c11Case) (bucket string, nontrivial bool) {
 	oix := out.OffsetIndexes()
 	ncols := len(paths)
 	from := 0
+	if npend > 0 {
+		// the buffered rows are flushed before the row group is written: they share no row group with its rows
+		acc, cut := int64(0), false
+		var sizes []int64
+		for _, rgm := range md.RowGroups {
+			acc += rgm.NumRows
+			cut = cut || acc == int64(npend)
+			sizes = append(sizes, rgm.NumRows)
+		}
+		if !cut {
+			violation(c, "buffered-rows-not-flushed", fmt.Sprintf("%s: %d rows were buffered in the writer when WriteRowGroup was called; the output row groups %v do not end after them (paths %v)", bucket, npend, sizes, implPaths), cs)
+			return bucket, true
+		}
+	}
 	samePartition := len(md.RowGroups) == len(ref.Metadata().RowGroups)
 	if samePartition {
 		for g := range md.RowGroups {
@@ -1412,6 +1530,14 @@ func check(c *core.Ctx, cs c11Case) (bucket string, nontrivial bool) {
 				violation(c, "dictionary-not-honoured", fmt.Sprintf("%s: dictionary page present=%v, the destination's configuration gives %v (paths %v)", where, sawDict, d.dict, implPaths), cs)
 				ok = false
 			}
+			if ok && d.dict && !dst.Encrypt {
+				// the encoding of every data page against the destination's DictionaryMaxBytes, for the
+				// page boundaries of the output itself (page boundaries may differ from the row path's)
+				if class, v := dictLimitVerdict(outBuf.Bytes(), &ch.MetaData, out.RowGroups()[g].ColumnChunks()[ci], dst.DictMaxBytes); class != "" {
+					violation(c, class, fmt.Sprintf("%s: %s; rows written one by one with the destination's options fall back to PLAIN exactly when the limit is exceeded (paths %v)", where, v, implPaths), cs)
+					ok = false
+				}
+			}
 			if d.hasCI && ch.ColumnIndexOffset == 0 || d.hasOI && ch.OffsetIndexOffset == 0 {
 				violation(c, "page-index-missing", fmt.Sprintf("%s: no column/offset index although the destination writes one (paths %v)", where, implPaths), cs)
 				ok = false
@@ -1429,6 +1555,27 @@ func check(c *core.Ctx, cs c11Case) (bucket string, nontrivial bool) {
 				if (len(rs.MinValue) > 0) != (len(m.Statistics.MinValue) > 0) || (len(rs.MaxValue) > 0) != (len(m.Statistics.MaxValue) > 0) || rs.NullCount != m.Statistics.NullCount {
 					violation(c, "statistics-differ", fmt.Sprintf("%s: statistics min=%x max=%x nulls=%d, the same rows written one by one give min=%x max=%x nulls=%d (paths %v)", where, m.Statistics.MinValue, m.Statistics.MaxValue, m.Statistics.NullCount, rs.MinValue, rs.MaxValue, rs.NullCount, implPaths), cs)
 					ok = false
+				}
+				rm := &ref.Metadata().RowGroups[g].Columns[ci].MetaData
+				if gs, rgs := geoStatsText(m.GeospatialStatistics), geoStatsText(rm.GeospatialStatistics); gs != rgs {
+					violation(c, "geospatial-statistics-differ", fmt.Sprintf("%s: geospatial statistics %s, the same rows written one by one give %s (paths %v)", where, gs, rgs, implPaths), cs)
+					ok = false
+				}
+				if !dst.Encrypt && m.BloomFilterOffset != 0 && rm.BloomFilterOffset != 0 {
+					// same rows in the chunk: the row path's filter, bit for bit
+					oh, ob, oerr := bloomRaw(outBuf.Bytes(), &m)
+					rh, rb, rerr := bloomRaw(refBuf.Bytes(), rm)
+					switch {
+					case oerr != nil || rerr != nil:
+						violation(c, "bloom-filter-unreadable", fmt.Sprintf("%s: bloom filter: output %v, reference %v (paths %v)", where, oerr, rerr, implPaths), cs)
+						ok = false
+					case oh != rh:
+						violation(c, "bloom-filter-size-differs:"+pathOf(implPaths), fmt.Sprintf("%s: bloom filter header {%s}, the same rows written one by one give {%s} (%d values in the chunk, %d bits per value configured) (paths %v)", where, oh, rh, m.NumValues, dst.BloomBits, implPaths), cs)
+						ok = false
+					case !bytes.Equal(ob, rb):
+						violation(c, "bloom-filter-bits-differ", fmt.Sprintf("%s: the %d bytes of the bloom filter differ from those the same rows written one by one give (paths %v)", where, len(ob), implPaths), cs)
+						ok = false
+					}
 				}
 			}
 			// bloom filter
@@ -1546,19 +1693,40 @@ func check(c *core.Ctx, cs c11Case) (bucket string, nontrivial bool) {
 			fmt.Sscanf(implPaths[i], "copy=%d reencode=%d", &dc, &dr)
 			vmPlans = append(vmPlans, coqPlanCase(swToken(cs.Switch), dst.Encrypt, maxRows, len(paths), p.nodes, p.fuel, dc, dr))
 		}
-		// row groups of the output: one per copy / re-encode / pack action
+		// row groups of the output (CopyPath/Groups.v): those of the rows written before the call,
+		// then one per non-empty copy / re-encode / pack action
 		var wantGroups []int64
+		pendGroups := 0
 		exact := true
-		for _, p := range plans {
-			for _, a := range p.actions {
-				i := strings.IndexByte(a, ':')
-				if i < 0 || a[0] == 'W' || a[0] == 'X' {
-					exact = false
-					continue
+		for i, p := range plans {
+			written := 0
+			if i == 0 {
+				written = npend
+			}
+			ans := c.Ask(fmt.Sprintf("c11.groups%s %x", strings.TrimPrefix(p.req, "c11.plan"), written))
+			if ans == "INEXACT" {
+				exact = false
+				continue
+			}
+			n := 0
+			if ans != "_" {
+				for _, t := range strings.Split(ans, ",") {
+					v, err := strconv.ParseInt(t, 16, 64)
+					if err != nil {
+						mismatch(c, "corr:C11.row-groups", core.Trunc(p.req, 600), "", ans, cs)
+						return bucket, true
+					}
+					wantGroups = append(wantGroups, v)
+					n++
 				}
-				n, _ := strconv.ParseInt(a[i+1:], 16, 64)
-				if n > 0 {
-					wantGroups = append(wantGroups, n)
+			}
+			if i == 0 {
+				// the groups of the first call that are not those of its actions
+				pendGroups = n
+				for _, a := range p.actions {
+					if j := strings.IndexByte(a, ':'); j >= 0 && a[j+1:] != "0" {
+						pendGroups--
+					}
 				}
 			}
 		}
@@ -1571,10 +1739,20 @@ func check(c *core.Ctx, cs c11Case) (bucket string, nontrivial bool) {
 				mismatch(c, "corr:C11.row-groups", core.Trunc(strings.Join(reqs, " | "), 1500), fmt.Sprint(gotGroups), fmt.Sprint(wantGroups), cs)
 				return bucket, true
 			}
+			if npend > 0 && len(plans) == 1 && len(vmGroups) < 25 && len(plans[0].req) <= 6000 && !vmSeen["groups/"+bucket] {
+				vmSeen["groups/"+bucket] = true
+				var gs []string
+				for _, g := range gotGroups {
+					gs = append(gs, fmt.Sprintf("%d%%N", g))
+				}
+				ns := append([]string(nil), plans[0].nodes...)
+				vmGroups = append(vmGroups, fmt.Sprintf("({| sw_disable_copy := %s; sw_disable_reencode := %s |}, {| w_schema_set := true; w_encryption := %s; w_max_rows := %d%%N; w_ncols := %d |}, %s, %d, %d%%N, [%s])",
+					coqBoolCh(swToken(cs.Switch)[0]), coqBoolCh(swToken(cs.Switch)[1]), core.CoqBool(dst.Encrypt), maxRows, len(paths), coqTree(&ns), plans[0].fuel, npend, strings.Join(gs, "; ")))
+			}
 		}
 		// copied chunks: the offset index is the source's, re-based (Splice.v)
 		if len(plans) == len(fresh) {
-			g := 0
+			g := pendGroups
 			for i, p := range plans {
 				if len(p.actions) == 1 && p.actions[0][0] == 'C' {
 					if fr, isFile := b.registry[fresh[i]]; isFile && g < len(md.RowGroups) && !dst.Encrypt {
@@ -1619,6 +1797,22 @@ func check(c *core.Ctx, cs c11Case) (bucket string, nontrivial bool) {
 	}
 	bucket = bucket + "=" + pathKind
 	return bucket, len(want) >= 2
+}
+
+// pathOf names the path the calls of a case took, from the hook counters.
+func pathOf(implPaths []string) string {
+	kind := "rows"
+	for _, p := range implPaths {
+		var dc, dr int64
+		fmt.Sscanf(p, "copy=%d reencode=%d", &dc, &dr)
+		switch {
+		case dc > 0:
+			return "copy"
+		case dr > 0:
+			kind = "column-wise"
+		}
+	}
+	return kind
 }
 
 func encNames(m map[int]bool) string {
@@ -1701,7 +1895,7 @@ func checkBatches(c *core.Ctx, cs c11Case) bool {
 		dst.Codec = "snappy"
 	}
 	var outBuf bytes.Buffer
-	w := parquet.NewGenericWriter[any](&outBuf, append([]parquet.WriterOption{b.srcRoot.ParquetSchema()}, dst.writerOptions(b.srcRoot, nil)...)...)
+	w := parquet.NewGenericWriter[any](&outBuf, append([]parquet.WriterOption{schemaOf(b.srcRoot)}, dst.writerOptions(b.srcRoot, nil)...)...)
 	r0 := parquet.VerifReencodePathCount()
 	if _, err := w.WriteRowGroup(src); err != nil {
 		violation(c, "write-error", fmt.Sprintf("batches: WriteRowGroup failed: %v", err), cs)
@@ -1819,11 +2013,16 @@ func probeClass(c *core.Ctx, f func()) string {
 	return r
 }
 var vmPlans []string
+var vmGroups []string
 var vmSeen = map[string]bool{}
 
 // ---- running ----
 
 func runCase(c *core.Ctx, cs c11Case, sample bool) {
+	check := check
+	if cs.Fault > 0 {
+		check = checkFault
+	}
 	var bucket string
 	var nontrivial bool
 	if class := probeClass(c, func() { bucket, nontrivial = check(c, cs) }); class != "" {
@@ -1854,6 +2053,21 @@ func runCase(c *core.Ctx, cs c11Case, sample bool) {
 		if cs.Switch != "" {
 			t := cs
 			t.Switch = ""
+			if fails(t) {
+				cs = t
+			}
+		}
+		for cs.Pending > 0 {
+			t := cs
+			t.Pending = cs.Pending / 2
+			if !fails(t) {
+				break
+			}
+			cs = t
+		}
+		if cs.Card > 2 {
+			t := cs
+			t.Card = 2
 			if fails(t) {
 				cs = t
 			}
@@ -1892,8 +2106,17 @@ func runBatches(c *core.Ctx, cs c11Case) {
 	c.Case("batches", "batches"+string(key), cs.Gen.NRows >= 2)
 }
 
+var tlast = time.Now()
+
+func tmark(i int) {
+	if os.Getenv("C11_TIMING") != "" {
+		fmt.Fprintf(os.Stderr, "TIMING before %d: %.1fs\n", i, time.Since(tlast).Seconds())
+	}
+	tlast = time.Now()
+}
+
 func run(c *core.Ctx) {
-	c.Res.Rule = "source row groups {file-backed (generated schemas/options/Write-Flush histories), Buffer, GenericBuffer, MultiRowGroup of files and buffers, MergeRowGroups of sorted inputs (disjoint, overlapping, partially overlapping with range views, with and without DropDuplicatedRows, unsorted), the deduplicating wrapper, ConvertRowGroup to a schema with an added/dropped column, a foreign RowGroup implementation reversing the rows} x destination options {equal to the source's, or differing in one of codec, page version, default encoding, column encoding, dictionary limit, page statistics, bloom filter present/absent/size, MaxRowsPerRowGroup, sorting, encryption, page buffer size, column index size limit} x switches; each written with WriteRowGroup and, row by row, into a reference writer. Non-trivial = at least 2 rows; distinct by the JSON of the case."
+	c.Res.Rule = "source row groups {file-backed (generated schemas/options/Write-Flush histories), Buffer, GenericBuffer, MultiRowGroup of files and buffers, MergeRowGroups of sorted inputs (disjoint, overlapping, partially overlapping with range views, with and without DropDuplicatedRows, unsorted), the deduplicating wrapper, ConvertRowGroup to a schema with an added/dropped column, a foreign RowGroup implementation reversing the rows} x destination options {equal to the source's, or differing in one of codec, page version, default encoding, column encoding, dictionary limit (none / larger / smaller), page statistics, bloom filter present/absent/size, MaxRowsPerRowGroup, sorting, encryption, page buffer size, column index size limit} x switches; each written with WriteRowGroup and, row by row, into a reference writer. Added shapes: dictionary columns of every kind (byte array, 32/64-bit, fixed length, double, below a repeated node) with 2..1000 distinct values arriving through the chunk or cycling, source DictionaryMaxBytes in {none, 8, 64, 300, 2000} (chunks with RLE_DICTIONARY pages followed by PLAIN pages) x destination limit larger / none / smaller, bloom filters on and off; GEOMETRY / GEOGRAPHY columns (optional, required, repeated; WKB points, line strings, polygons, multi-points in XY/XYZ/XYM/XYZM, empty geometries, bytes that are not WKB). Histories: 1..40 rows written with WriteRows and still buffered when WriteRowGroup is called (every source kind, segmented ones whose first batch packs several segments included); a call of WriteRowGroup that fails while the verbatim copy is staged (source opened with SkipPageIndex through a ReaderAt that refuses the column index or the offset index of one column) followed by rows written one by one or a healthy row group. Non-trivial = at least 2 rows (fault histories: the call failed while staging); distinct by the JSON of the case."
 	codecs := []string{"none", "snappy", "gzip", "zstd"}
 
 	// corpus first: the defect repaired by bdd71f3 (repeated column, rows of 100+ values,
@@ -1931,8 +2154,76 @@ func run(c *core.Ctx) {
 		runCase(c, cs, false)
 	}
 
+	tmark(0)
+	// dictionary shapes: every source limit x the destination's limit larger / none / smaller, and the other attributes
+	// (bloom filters of dictionary columns on the column-wise and row paths among them)
+	x := 0
+	for li := range dictLimits {
+		for bl := 0; bl < 2; bl++ { // 0: the source has bloom filters
+			for pg := 0; pg < 2; pg++ { // 0: one page per chunk
+				for _, dstk := range []string{"dictmax", "dictmore", "dictless", "bloom"} {
+					for _, src := range []string{"file", "multi", "buffer"} {
+						if src != "file" && (dstk != "bloom" || pg == 0) {
+							continue
+						}
+						// seed: seed/3 selects the limit, seed/15 the bloom filters, seed/30 the page size;
+						// seed%3 != 0 makes the dictionary grow through the chunk
+						x++
+						seed := int64(3*(li+5*(bl+2*(pg+3*x))) + 1)
+						runCase(c, c11Case{Gen: gen.Case{Seed: seed, NRows: 240, MaxDepth: 1, MaxFields: 1, Codecs: []string{"snappy"}}, Shape: "dict", Card: []int{40, 12}[x%2], Src: src, Dst: dstk, Parts: 2}, x == 1)
+					}
+				}
+			}
+		}
+	}
+	dictDst := []string{"same", "same", "dictmax", "dictmore", "dictless", "bloom", "bloom", "bloomsize", "codec", "version", "pagebuf", "maxrows", "encrypt", "stats"}
+	dictSrc := []string{"file", "file", "file", "buffer", "genericbuffer", "multi", "multi-mixed", "foreign-plain", "foreign", "convert-add"}
+	for i := 0; i < c.N(130, 900); i++ {
+		cs := c11Case{Gen: gen.Case{Seed: c.Seed*15485863 + int64(i), NRows: []int{30, 120, 400}[c.Rng.Intn(3)], MaxDepth: 1, MaxFields: 1, Codecs: codecs}, Shape: "dict",
+			Card: []int{2, 9, 40, 1000}[c.Rng.Intn(4)], Src: dictSrc[c.Rng.Intn(len(dictSrc))], Dst: dictDst[c.Rng.Intn(len(dictDst))], Parts: 2 + c.Rng.Intn(2)}
+		if c.Rng.Intn(5) == 0 {
+			cs.Pending = 1 + c.Rng.Intn(20)
+		}
+		runCase(c, cs, false)
+	}
+	tmark(2)
+	// geospatial columns among the columns written
+	geoDst := []string{"same", "same", "same", "codec", "stats", "version", "maxrows", "sorting", "bloomoff", "pagebuf", "indexlimit"}
+	geoSrc := []string{"file", "file", "file", "multi", "multi-mixed", "buffer", "foreign-plain", "convert-add"}
+	for i := 0; i < c.N(60, 400); i++ {
+		cs := c11Case{Gen: gen.Case{Seed: c.Seed*32452843 + int64(i), NRows: []int{1, 5, 40, 130}[c.Rng.Intn(4)], MaxDepth: 1, MaxFields: 1, Codecs: codecs, NullBias: c.Rng.Intn(8)}, Shape: "geo",
+			Src: geoSrc[c.Rng.Intn(len(geoSrc))], Dst: geoDst[c.Rng.Intn(len(geoDst))], Parts: 2 + c.Rng.Intn(2)}
+		if c.Rng.Intn(6) == 0 {
+			cs.Pending = 1 + c.Rng.Intn(10)
+		}
+		runCase(c, cs, i == 0)
+	}
+	tmark(3)
+	// rows still buffered in the writer when WriteRowGroup is called: every source kind
+	for i, src := range srcKinds {
+		for _, dstk := range []string{"same", "maxrows"} {
+			runCase(c, c11Case{Gen: gen.Case{Seed: int64(1300 + i), NRows: 60, MaxDepth: 2, MaxFields: 4, Codecs: codecs, NullBias: 2}, Src: src, Dst: dstk, Parts: 3, Pending: 7}, false)
+		}
+	}
+	for i, src := range append(append([]string(nil), sortedSrcKinds...), "merge-dedup-disjoint") {
+		for _, dstk := range []string{"same", "maxrows", "bloom"} {
+			runCase(c, c11Case{Gen: gen.Case{Seed: int64(1400 + i), NRows: 90, MaxDepth: 1, MaxFields: 1, Codecs: codecs}, Shape: "sorted", Src: src, Dst: dstk, Parts: 3, Pending: 11}, src == "multi" && dstk == "same")
+		}
+	}
+	tmark(4)
+	// a call that fails while the copy is staged, then further writes
+	for i := 0; i < c.N(70, 400); i++ {
+		cs := c11Case{Gen: gen.Case{Seed: c.Seed*49979687 + int64(i), NRows: []int{5, 40, 130}[c.Rng.Intn(3)], MaxDepth: 1 + c.Rng.Intn(2), MaxFields: 2 + c.Rng.Intn(4), Codecs: codecs, NullBias: c.Rng.Intn(8)},
+			Shape: []string{"", "", "", "geo", "dict"}[c.Rng.Intn(5)], Src: "file", Dst: "same", Fault: 1 + c.Rng.Intn(6), FaultOI: c.Rng.Intn(2) == 0, After: []string{"rows", "rowgroup"}[c.Rng.Intn(2)]}
+		if c.Rng.Intn(3) == 0 {
+			cs.Pending = 1 + c.Rng.Intn(10)
+		}
+		runCase(c, cs, i == 0)
+	}
+
+	tmark(5)
 	// generated cases
-	n := c.N(1500, 9000)
+	n := c.N(1250, 9000)
 	for i := 0; i < n; i++ {
 		cs := c11Case{Gen: gen.Case{Seed: c.Seed*7919 + int64(i), NRows: []int{1, 5, 40, 130, 300}[c.Rng.Intn(5)], MaxDepth: 1 + c.Rng.Intn(3), MaxFields: 1 + c.Rng.Intn(5), Codecs: codecs, NullBias: c.Rng.Intn(8)}}
 		cs.Parts = 2 + c.Rng.Intn(3)
@@ -1961,8 +2252,12 @@ func run(c *core.Ctx) {
 		if c.Rng.Intn(6) == 0 {
 			cs.Switch = []string{"nocopy", "noreencode", "none"}[c.Rng.Intn(3)]
 		}
+		if c.Rng.Intn(6) == 0 {
+			cs.Pending = 1 + c.Rng.Intn(40)
+		}
 		runCase(c, cs, i < 2)
 	}
+	tmark(6)
 	// batches of the re-encode path
 	for i := 0; i < c.N(25, 300); i++ {
 		cs := c11Case{Gen: gen.Case{Seed: c.Seed*104729 + int64(i), NRows: 10 + c.Rng.Intn(50), MaxDepth: 1, MaxFields: 1, Codecs: []string{"none", "snappy"}}, Shape: "repeated", Src: "file", Dst: "codec", RowLen: []int{3, 60, 150, 300}[c.Rng.Intn(4)]}
@@ -1970,14 +2265,17 @@ func run(c *core.Ctx) {
 	}
 
 	// a sample of the cases re-evaluated inside coqc
-	c.Vm("From Coq Require Import List Arith Bool NArith.\nFrom PQ Require Import CopyPath.Batches CopyPath.Decision.\nImport ListNotations.")
+	c.Vm("From Coq Require Import List Arith Bool NArith.\nFrom PQ Require Import CopyPath.Batches CopyPath.Decision CopyPath.Groups.\nImport ListNotations.")
 	c.Vm("Definition cases : list (bool * list nat * list nat * list nat) := [\n  " + strings.Join(vmBatches, ";\n  ") + "].")
 	c.Vm("Definition same (a b : list nat) := if list_eq_dec Nat.eq_dec a b then true else false.")
 	c.Vm("Definition mismatches := filter (fun '(rep, pages, reps, cuts) => match batch_cuts rep 1024 pages reps with Some l => negb (same l cuts) | None => true end) cases.")
 	c.Vm("Definition plan_cases : list (switches * writer * rg * nat * nat * nat) := [\n  " + strings.Join(vmPlans, ";\n  ") + "].")
 	c.Vm("Definition plan_mismatches := filter (fun '(sw, w, r, fuel, cc, rc) => negb (Nat.eqb (copy_count (plan fuel sw w r)) cc && Nat.eqb (reencode_count (plan fuel sw w r)) rc)) plan_cases.")
-	c.Vm("Definition M := Eval vm_compute in (length cases + length plan_cases, map (fun _ => 0) mismatches ++ map (fun '(_, _, _, _, cc, rc) => cc + rc) plan_mismatches).\nPrint M.")
-	c.Res.VmCases = len(vmBatches) + len(vmPlans)
+	c.Vm("Definition group_cases : list (switches * writer * rg * nat * N * list N) := [\n  " + strings.Join(vmGroups, ";\n  ") + "].")
+	c.Vm("Definition same_groups (a b : list N) := if list_eq_dec N.eq_dec a b then true else false.")
+	c.Vm("Definition group_mismatches := filter (fun '(sw, w, r, fuel, written, groups) => match out_row_groups w written (plan fuel sw w r) with Some l => negb (same_groups l groups) | None => true end) group_cases.")
+	c.Vm("Definition M := Eval vm_compute in (length cases + length plan_cases + length group_cases, map (fun _ => 0) mismatches ++ map (fun '(_, _, _, _, cc, rc) => cc + rc) plan_mismatches ++ map (fun _ => 0) group_mismatches).\nPrint M.")
+	c.Res.VmCases = len(vmBatches) + len(vmPlans) + len(vmGroups)
 }
 
 func replay(c *core.Ctx, raw json.RawMessage) {
